@@ -47,7 +47,20 @@ def correspondence(rep, ctx):
     renamed = rd.decaydata.DecayData("verif_other", dd.bfs, dd.float_year_conv, dd.hldata, dd.modes, dd.nuclides,
                                      dd.progeny, dd.scipy_data, dd._sympy_data, dd._sympy_year_conv)
     synth = all_names_dataset(rd, ["H-3", "He-3", "C-14"])
-    datasets = [(dd, 0), (fresh, 0), (renamed, 1), (nosym, 2), (synth, 3)]
+    # the default dataset with ONE trailing entry dropped (the SF branch of Fm-257): same name, same everything else
+    import copy as _copy
+
+    def _obj(rows):
+        a = np.empty(len(rows), dtype=object)
+        for i_, x in enumerate(rows):
+            a[i_] = list(x)
+        return a
+    prog_t, bfs_t, modes_t = ([list(x) for x in arr] for arr in (dd.progeny, dd.bfs, dd.modes))
+    k_t = next(i_ for i_, p_ in enumerate(prog_t) if len(p_) >= 2 and p_[-1] == "SF")
+    prog_t[k_t], bfs_t[k_t], modes_t[k_t] = prog_t[k_t][:-1], bfs_t[k_t][:-1], modes_t[k_t][:-1]
+    trunc = rd.decaydata.DecayData(dd.dataset_name, _obj(bfs_t), dd.float_year_conv, dd.hldata, _obj(modes_t), dd.nuclides,
+                                   _obj(prog_t), dd.scipy_data, dd._sympy_data, dd._sympy_year_conv)
+    datasets = [(dd, 0), (fresh, 0), (renamed, 1), (nosym, 2), (synth, 3), (trunc, 4)]
     dsname_id = {"icrp107_ame2020_nubase2020": 0, "verif_other": 1, "verif_all_names": 2}
 
     pool = []   # (real object, descriptor builder)
@@ -72,8 +85,8 @@ def correspondence(rep, ctx):
         ({"H-3": sympy.Float(3.0), "C-14": sympy.Integer(2)}, "num"), ({"H-3": sympy.Rational(6, 2), "C-14": sympy.Float(2.0)}, "num"),
         ({"H-3": sympy.Float(0.5)}, "mol"),
     ]
-    for ds, dsid in datasets[:4]:
-        for contents, unit in specs:
+    for ds, dsid in datasets[:4] + [datasets[5]]:
+        for contents, unit in (specs if dsid != 4 else specs[:2]):
             for C in (rd.Inventory, rd.InventoryHP):
                 if C is rd.InventoryHP and ds is nosym:
                     continue
